@@ -13,6 +13,8 @@ const (
 	DefaultTrackSequenceName   = "crd"
 	DefaultInstrument          = "Piano"
 	DefaultTicksPerQuoaterNote = 960
+	// MaxTicks is the largest delta time a midi file can hold, a variable length quantity of 4 bytes.
+	MaxTicks = 0x0FFFFFFF
 )
 
 var (
@@ -35,6 +37,7 @@ type Writer interface {
 
 type MIDIWriter struct {
 	clock            smf.MetricTicks
+	totalTicks       float64
 	tickDelta        uint32
 	quoaterNoteTicks uint32
 	set              *TrackSetController
@@ -67,8 +70,14 @@ func (w *MIDIWriter) getTickDeltaAndClear() uint32 {
 }
 
 func (w *MIDIWriter) addTickDelta(t uint32) { w.tickDelta += t }
-func (w MIDIWriter) newTicks(multiplier float64) uint32 {
-	return uint32(math.Round(float64(w.quoaterNoteTicks) * multiplier))
+func (w *MIDIWriter) newTicks(multiplier float64) uint32 {
+	ticks := math.Round(float64(w.quoaterNoteTicks) * multiplier)
+	w.totalTicks += ticks
+	if w.totalTicks > MaxTicks {
+		// no delta time can be written, WriteTo reports it
+		return 0
+	}
+	return uint32(ticks)
 }
 
 func (w *MIDIWriter) add(op *TrackOp) {
@@ -98,6 +107,9 @@ func (w *MIDIWriter) init() {
 }
 
 func (w MIDIWriter) WriteTo(out io.Writer) (int64, error) {
+	if w.totalTicks > MaxTicks {
+		return 0, errorx.Invalid("too long for midi delta times, %.0f ticks exceeds %d", w.totalTicks, MaxTicks)
+	}
 	s := smf.New()
 	s.TimeFormat = w.clock
 	for i := range w.set.Set().Len() {
